@@ -200,6 +200,25 @@ func grid(b *strings.Builder, P, W *proj.SR, glon, glat float64) {
 	}
 }
 
+// twin: two definitions that may or may not denote the same CRS; every use gets FRESH references
+// (LCC/Merc write defaults into the SR when their projection functions are first built)
+func twin(b *strings.Builder, da, db string, glon, glat float64) {
+	A, ra := parseRes(da)
+	B, rb := parseRes(db)
+	st := func(r string) string { return r[:strings.Index(r+" ", " ")] }
+	eab, eba := equalRes(A, B), equalRes(B, A)
+	A1, _ := parseRes(da)
+	B1, _ := parseRes(db)
+	nab := nilRes(A1, B1)
+	A2, _ := parseRes(da)
+	B2, _ := parseRes(db)
+	nba := nilRes(B2, A2)
+	fmt.Fprintf(b, "A %s B %s EQ %s %s NIL %s %s", st(ra), st(rb), eab, eba, nab, nba)
+	A3, _ := parseRes(da)
+	B3, _ := parseRes(db)
+	grid(b, A3, B3, glon, glat)
+}
+
 func dec(s string) float64 {
 	var f float64
 	fmt.Sscanf(s, "%g", &f)
@@ -277,6 +296,20 @@ func implLine(line string, out *bufio.Writer) {
 		fmt.Fprintf(&b, "P %s W %s EQ %s %s %s %s NIL %s %s %s", rp, rw, equalRes(P, P2), equalRes(W, W2), equalRes(P, W), equalRes(W, P),
 			nilRes(P, P2), nilRes(W, W2), nilRes(P, W))
 		grid(&b, P, W, dec(t[bar-2]), dec(t[bar-1]))
+	case "twinx":
+		bar := -1
+		for i, x := range t {
+			if x == "|" {
+				bar = i
+			}
+		}
+		glon, glat := dec(t[bar-2]), dec(t[bar-1])
+		b.WriteString("P4 ")
+		twin(&b, unhx(t[bar+1]), unhx(t[bar+2]), glon, glat)
+		b.WriteString(" WKT ")
+		twin(&b, unhx(t[bar+3]), unhx(t[bar+4]), glon, glat)
+	case "twin2":
+		twin(&b, unhx(t[1]), unhx(t[2]), dec(t[3]), dec(t[4]))
 	case "pair2":
 		A, ra := parseRes(unhx(t[1]))
 		B, rb := parseRes(unhx(t[2]))
